@@ -56,6 +56,121 @@ def t_str(t):
     return "[" + "".join(t_str(c) for c in t) + "]"
 
 
+from ..syminterp import Sym as _Sym
+
+
+class XArr(_Sym):
+    """exact (Fraction) 1-d / 2-d array with the numpy operations runge_kutta_ti_coefficient uses: basic indexing and slicing (get / set with broadcasting), dot, ndim, shape"""
+    def __init__(self, data):
+        super().__init__("array")
+        self.d = data      # list (1-d) or list of lists (2-d)
+
+    @property
+    def ndim(self):
+        return 2 if self.d and isinstance(self.d[0], list) else 1
+
+    @property
+    def shape(self):
+        return (len(self.d), len(self.d[0])) if self.ndim == 2 else (len(self.d),)
+
+    @staticmethod
+    def _idx(k, n):
+        return list(range(n))[k] if isinstance(k, slice) else [k]
+
+    def __getitem__(self, k):
+        if self.ndim == 1:
+            return XArr(self.d[k]) if isinstance(k, slice) else self.d[k]
+        if not isinstance(k, tuple):
+            k = (k, slice(None))
+        r, c = self._idx(k[0], len(self.d)), self._idx(k[1], len(self.d[0]))
+        sub = [[self.d[i][j] for j in c] for i in r]
+        if not isinstance(k[0], slice) and not isinstance(k[1], slice):
+            return sub[0][0]
+        if not isinstance(k[0], slice):
+            return XArr(sub[0])
+        if not isinstance(k[1], slice):
+            return XArr([x[0] for x in sub])
+        return XArr(sub)
+
+    def __setitem__(self, k, v):
+        if self.ndim == 1:
+            idx = self._idx(k, len(self.d))
+            vals = v.d if isinstance(v, XArr) else [v] * len(idx)
+            if len(vals) != len(idx):
+                raise ValueError(f"could not broadcast input array from shape ({len(vals)},) into shape ({len(idx)},)")
+            for i, x in zip(idx, vals):
+                self.d[i] = F(x)
+            return
+        if not isinstance(k, tuple):
+            k = (k, slice(None))
+        r, c = self._idx(k[0], len(self.d)), self._idx(k[1], len(self.d[0]))
+        if isinstance(v, XArr) and v.ndim == 2:
+            if v.shape != (len(r), len(c)):
+                raise ValueError(f"could not broadcast input array from shape {v.shape} into shape {(len(r), len(c))}")
+            for a_, i in enumerate(r):
+                for b_, j in enumerate(c):
+                    self.d[i][j] = F(v.d[a_][b_])
+        elif isinstance(v, XArr):
+            tgt = c if len(r) == 1 or isinstance(k[1], slice) and not isinstance(k[0], slice) else r
+            if len(v.d) != (len(c) if len(r) == 1 else len(r) if len(c) == 1 else -1):
+                raise ValueError(f"could not broadcast input array from shape ({len(v.d)},) into shape {(len(r), len(c))}")
+            for a_, x in enumerate(v.d):
+                if len(r) == 1:
+                    self.d[r[0]][c[a_]] = F(x)
+                else:
+                    self.d[r[a_]][c[0]] = F(x)
+        else:
+            for i in r:
+                for j in c:
+                    self.d[i][j] = F(v)
+
+    def dot(self, o):
+        if self.ndim == 1 and o.ndim == 2:
+            if len(self.d) != o.shape[0]:
+                raise ValueError(f"shapes ({len(self.d)},) and {o.shape} not aligned")
+            return XArr([sum(self.d[i] * o.d[i][j] for i in range(len(self.d))) for j in range(o.shape[1])])
+        if self.ndim == 2 and o.ndim == 2:
+            if self.shape[1] != o.shape[0]:
+                raise ValueError(f"shapes {self.shape} and {o.shape} not aligned")
+            return XArr([[sum(self.d[i][q] * o.d[q][j] for q in range(o.shape[0])) for j in range(o.shape[1])] for i in range(self.shape[0])])
+        if self.ndim == 1 and o.ndim == 1:
+            return sum(x * y for x, y in zip(self.d, o.d))
+        raise ValueError("dot of these ranks is not modelled")
+
+
+def _xzeros(shape, dtype=None):
+    if isinstance(shape, (list, tuple)):
+        return XArr([[F(0)] * int(shape[1]) for _ in range(int(shape[0]))]) if len(shape) == 2 else XArr([F(0)] * int(shape[0]))
+    return XArr([F(0)] * int(shape))
+
+
+def ti_expansion_rule(chk, src, tableaux):
+    """exact abstract run of RungeKutta.runge_kutta_ti_coefficient on every tableau: coefficient k of weight row r equals 1/k! for every k up to the order advertised for that row"""
+    from ..syminterp import SymInterp, Sym
+    from math import factorial
+    fi = src.func(RK, "RungeKutta.runge_kutta_ti_coefficient")
+    for m, (a, b, c, s, order) in tableaux.items():
+        it = SymInterp(src, None, {"np": Sym("np", zeros=_xzeros)})
+        me = Sym("rk", tableau=[XArr([list(r) for r in a]), XArr([list(r) for r in b]), XArr(list(c))], stage=s, order=tuple(order), method=m)
+        problems = []
+        try:
+            res = it.call_function(fi, [me])
+        except (ValueError, IndexError) as e:
+            res, problems = None, [f"{type(e).__name__}: {e}"]
+        if res is not None:
+            rows = res.d if isinstance(res, XArr) and res.ndim == 2 else [res.d] if isinstance(res, XArr) else None
+            if rows is None or len(rows) != len(order):
+                problems.append(f"result has {len(rows) if rows is not None else '?'} rows for {len(order)} weight rows")
+            else:
+                for r, p in enumerate(order):
+                    for k in range(0, p + 1):
+                        got = rows[r][k] if k < len(rows[r]) else None
+                        if got != F(1, factorial(k)):
+                            problems.append(f"row {r} (order {p}): coefficient of f^{k} is {got}, 1/{k}! = {F(1, factorial(k))}")
+        chk.ob("ti-expansion", m, not problems, fi.where, problems[:3] or "1/k! up to the advertised order of every row", "1/k! up to the advertised order of every row", line=fi.node.lineno,
+               detail=f"constant-coefficient expansion derived for {m!r}: " + (problems[0] if problems else ""))
+
+
 def run(chk):
     src = chk.src
     chk.level = "proof"
@@ -120,6 +235,7 @@ def run(chk):
     ROLES = (NA, NB, NC, NS, NO)
     nconds = 0
     sharp = {}
+    tableaux = {}
     for m in method_list:
         env = partial_eval_dispatch(gt.node, "self.method", m, ROLES)
         where = gt.where
@@ -149,6 +265,7 @@ def run(chk):
             continue
         s = int(s)
         order = [int(p) for p in order]
+        tableaux[m] = (a, b, c, s, order)
         bad_rows = [i for i in range(s) if sum(a[i]) != c[i]]
         chk.ob("row-sum", m, not bad_rows, where,
                {f"stage{i}": [str(sum(a[i])), str(c[i])] for i in bad_rows} or "all equal", "c_i = sum_j a_ij",
@@ -179,6 +296,8 @@ def run(chk):
                 fails = [t_str(t) for t in trees(p + 1)
                          if sum(row[i] * phi_vec(t, a, s)[i] for i in range(s)) != F(1, t_gamma(t))]
                 sharp[f"{m}/row{irow}"] = f"order {p}; {len(fails)}/{len(trees(p + 1))} conditions of order {p + 1} fail"
+    chk.rule("ti-expansion", "runge_kutta_ti_coefficient (exact abstract run on every tableau): coefficient k of every weight row is 1/k! up to that row's advertised order", 10)
+    ti_expansion_rule(chk, src, tableaux)
     chk.extra["sharpness_info"] = sharp
     chk.extra["tree_conditions"] = nconds
 
